@@ -124,6 +124,10 @@ func runC07(env *core.Env) {
 	keep := fx.NewTask(map[string]interface{}{"title": "keep", "epic": e2})
 	_ = keep
 	root := fx.Store()
+	e3 := fx.NewEpic("E3") // second root: the same store plus an epic without children, explored to depth 2
+	root3 := fx.Store()
+	root3Key := core.CanonLog(root3.Log())
+	from3 := func(n *Node) bool { return core.CanonLog(rootOfNode(n).Log()) == root3Key }
 	universe := append(append([]string{}, tasks...), e1, e2, "ZZZZZZ")
 
 	type opMeta struct {
@@ -170,6 +174,16 @@ func runC07(env *core.Env) {
 				}
 			}
 		}
+		chains := [][]string{{e1, e2, e1}, {e2, e1, e2}, {e1, e2, "ZZZZZZ"}, {tasks[0], e1, tasks[0]}}
+		if from3(n) {
+			if n.Depth >= 2 {
+				return nil
+			}
+			chains = append(chains, []string{e1, e3, e1}, []string{e3, e2, e3}, []string{e3, e1, e2, e3}, []string{e3, e1}, []string{e1, e3})
+		}
+		for _, ch := range chains {
+			out = append(out, core.R("", append([]string{"--json", "sequence"}, ch...)...))
+		}
 		for _, t := range tasks {
 			out = append(out, core.R("", "--json", "set", t).In(`{"state":"done"}`))
 		}
@@ -179,17 +193,17 @@ func runC07(env *core.Env) {
 	var checked, accepted, rejected int64
 	classes := newCounter()
 	samples := &sampleSet{max: 10}
-	b := &BFS{Env: env, Roots: []core.Store{root}, KeyFn: graphKey, Ops: gen, MaxStates: 100000}
+	b := &BFS{Env: env, Roots: []core.Store{root, root3}, KeyFn: graphKey, Ops: gen, MaxStates: 100000}
 	b.Conf = newConformer(150, 300)
 	b.OnState = func(w *core.Worker, n *Node) {
 		obs := n.Aux.(core.Obs)
 		atomic.AddInt64(&checked, 1)
 		if obs.Fail != "" {
-			report(env, "C07 kind=store-unreadable", obs.Fail+" via "+fmt.Sprint(n.Shell()), mkTrace(root, "reads fail", n.Path, Assert{Kind: "read_fails", Step: len(n.Path)}))
+			report(env, "C07 kind=store-unreadable", obs.Fail+" via "+fmt.Sprint(n.Shell()), mkTrace(rootOfNode(n), "reads fail", n.Path, Assert{Kind: "read_fails", Step: len(n.Path)}))
 			return
 		}
 		if msg := checkDepInvariants(obs); msg != "" {
-			report(env, "C07 kind=graph-invariant "+invClass(msg), msg+" via "+fmt.Sprint(n.Shell()), mkTrace(root, msg, n.Path, Assert{Kind: "exit_zero", Step: len(n.Path)}))
+			report(env, "C07 kind=graph-invariant "+invClass(msg), msg+" via "+fmt.Sprint(n.Shell()), mkTrace(rootOfNode(n), msg, n.Path, Assert{Kind: "exit_zero", Step: len(n.Path)}))
 		}
 	}
 	b.OnTransition = func(w *core.Worker, n *Node, req core.Req, res core.Res, after core.Store) {
